@@ -20,7 +20,7 @@ ASSUMPTIONS = ["nvmon.ref exact reference model", "explored domain of DESIGN.md 
 FLOORS = {'quick': {'refine': 150, 'probe-lib': 2000, 'probe-defn': 2000, 'structure': 150, 'untouched': 60, 'helper': 60},
           'thorough': {'refine': 2000, 'probe-lib': 30000}}
 MANDATORY_TAGS = ['pdim1', 'pdim2', 'pdim3', 'rational', 'density2', 'density3', 'dirs:partial', 'dirs:all', 'helper:knot_list',
-                  'helper:add_knot_list', 'unnormalized', 'helper:single-knot-list', 'helper:knot_list+add_knot_list', 'helper:tuple-kv', 'unclamped']
+                  'helper:add_knot_list', 'unnormalized', 'helper:single-knot-list', 'helper:knot_list+add_knot_list', 'helper:tuple-kv', 'unclamped', 'short-knot-range']
 TECHNIQUE = ("runtime monitoring: exact reference-model oracle + structural knot-vector oracle after every refine_knotvector / "
              "knot_refinement call of a seeded workload")
 LEVEL_TEXT = ("Each refinement is followed by exact comparison with the original shape and by the dyadic-knot / multiplicity / "
@@ -39,6 +39,9 @@ def gen(rng, tier, shard, nshards):
         pd = kw.pop('pdim')
         kw.setdefault('maxextra', {1: 5, 2: 3, 3: 2}[pd])
         kw.setdefault('maxdeg', {1: 5, 2: 3, 3: 2}[pd])
+        if 'lohi' not in kw and rng.random() < 0.12:
+            a_ = rng.choice([0.0, 5.0, -2.0 ** -21])
+            kw.update(normalize=False, lohi=(a_, a_ + rng.choice([2.0 ** -20, 2.0 ** -17, 2.0 ** 12])))
         unclamped = 'kvcls' not in kw and rng.random() < 0.25
         sd = G.rand_shape(rng, pd, clamped_only=not unclamped, **(dict(kw, kvcls=rng.choice(['unclamped', 'unclamped_rep'])) if unclamped else kw))
         yield {'kind': 'refine', 'sd': sd, 'seed': rng.randrange(1 << 30)}
@@ -108,6 +111,8 @@ def check(case, ctx):
     probes = so.probe_params(rng, S0, nrand=6, maxn=26 if pdim < 3 else 12)
     if any(kv[0] != kv[p_] or kv[-1] != kv[-p_ - 1] for kv, p_ in zip(sd['kvs'], sd['degrees'])):
         ctx.tag('unclamped')
+    if any(abs(kv[-1] - kv[0]) < 1e-4 for kv in sd['kvs']):
+        ctx.tag('short-knot-range')
     ctx.tag('pdim%d' % pdim, 'rational' if sd['rational'] else 'nonrational',
             'normalized' if sd['normalize_kv'] else 'unnormalized')
     rounds = rng.randint(1, 2)
